@@ -122,12 +122,29 @@ func c08(c *Ctx) {
 	// the model: accept/reject and Sprint, for drift only (and the chunk-reader model on a sample)
 	var model []string
 	if c.Proofs.ModelBuilt {
+		// the model is compared for drift only: every input up to 300,000, beyond that every input that is
+		// not one of the exhaustive token strings plus a seeded sample of those (the extracted lexer
+		// needs about a millisecond per input)
 		lines := make([]string, len(inputs))
+		keepEvery := 1
+		if len(inputs) > 300000 {
+			keepEvery = len(inputs)/200000 + 1
+		}
 		for i, in := range inputs {
+			if keepEvery > 1 && i < exhaustive && i%keepEvery != 0 || len(in) > 16384 {
+				lines[i] = "parse\t" + hexs("") + "\t" + h.UniTable("") // placeholder, not compared
+				continue
+			}
 			lines[i] = "parse\t" + hexs(in) + "\t" + h.UniTable(in)
 		}
+		skipModel := func(i int) bool { return keepEvery > 1 && i < exhaustive && i%keepEvery != 0 || len(inputs[i]) > 16384 }
 		var err error
 		model, err = h.RunModel(c.Driver, lines)
+		for i := range model {
+			if skipModel(i) {
+				model[i] = "declined sampled-out"
+			}
+		}
 		c.CrossAll(lines, model)
 		if err != nil {
 			fmt.Println(err)
@@ -184,6 +201,8 @@ func c08(c *Ctx) {
 				mc := strings.SplitN(m, " ", 2)[0]
 				c.Count("model:" + mc)
 				switch {
+				case m == "declined sampled-out":
+					c.Count("model:sampled-out")
 				case mc == "declined" || mc == "driver-stack-overflow":
 					c.Declined++
 				case (mc == "ok") != (rep.Plain.Class == "op"):
